@@ -204,7 +204,8 @@ def make_session_harness():
         if not m:
             g.fail('no-session-cookie', {}, repr(out1[:200]))
             raise PathEnd()
-        c1 = m.group(1).decode()
+        c1_raw = m.group(1).decode()
+        c1 = c1_raw.strip('"')          # SimpleCookie quotes values containing '/'
         same_ip = g.flag('same_ip')
         same_agent = g.flag('same_agent')
         ip2 = ip1 if same_ip else '6.6.6.6'
@@ -212,7 +213,7 @@ def make_session_harness():
         who2 = hashlib.sha1(('%s%s' % (ip2, agent2)).encode()).hexdigest()
         uuid_part = c1.split('/', 1)[0]
         cookie = g.pick('cookie', ['verbatim', 'none', 'forged-uuid-plus-own-fingerprint', 'uuid-only', 'garbage', 'other-uuid-own-fingerprint', 'trailing-slash'])
-        cval = {'verbatim': c1, 'none': None, 'forged-uuid-plus-own-fingerprint': '%s/%s' % (uuid_part, who2), 'uuid-only': uuid_part, 'garbage': 'xyz',
+        cval = {'verbatim': c1_raw, 'none': None, 'forged-uuid-plus-own-fingerprint': '%s/%s' % (uuid_part, who2), 'uuid-only': uuid_part, 'garbage': 'xyz',
                 'other-uuid-own-fingerprint': '%s/%s' % ('0' * 32, who2), 'trailing-slash': c1 + '/'}[cookie]
         s2 = WebSock('second', peer=(ip2, 40001))
         rig.conn(s2)
@@ -223,14 +224,14 @@ def make_session_harness():
         second = store_seen.get('second')
         w = {'cookie': cookie, 'same_ip': same_ip, 'same_agent': same_agent}
         detail = 'cookie=%s same_ip=%s same_agent=%s: second request saw %s (victim sid %s); exceptions=%s' % (cookie, same_ip, same_agent, second, c1, rig.exceptions[:1])
-        g.note({'cookie': cookie, 'same_ip': same_ip, 'same_agent': same_agent, 'second_saw': str(second)[:80]})
+        g.note({'cookie': cookie, 'same_ip': same_ip, 'same_agent': same_agent, 'second_saw': str(second)})
         if second is None:
             if rig.exceptions:
                 g.fail('session-request-crashed', w, detail)
             else:
                 g.fail('second-request-not-served', w, detail)
             raise PathEnd()
-        legit = cookie == 'verbatim' and same_ip and same_agent
+        legit = cval is not None and cval.strip('"') == c1 and same_ip and same_agent
         sees_victim_data = second['data'].get('owner') == 'victim-data'
         if sees_victim_data and not legit:
             g.fail('session-data-disclosed', w, detail)
@@ -333,11 +334,34 @@ ENC_V = [VH.VirtualHosts.__init__, VH.VirtualHosts._on_request]
 
 def canaries():
     from harness.common import mutate
+
+    def with_dispatch_table(owner_fn_name, old, new):
+        """_httpauth keeps its checkers in a dict: patch the function and the table entry"""
+        def apply():
+            undo = mutate(HA, owner_fn_name, old, new)
+            saved = HA.AUTH_RESPONSES['digest']
+            HA.AUTH_RESPONSES['digest'] = getattr(HA, owner_fn_name)
+
+            def undo_all():
+                HA.AUTH_RESPONSES['digest'] = saved
+                undo()
+            return undo_all
+        return apply
+
+    def store_by_uuid():
+        u1 = mutate(SS.MemoryStore, 'load', 'return Session(sid, self.data[sid], self)', "return Session(sid, self.data[sid.split('/')[0]], self)")
+        u2 = mutate(SS.MemoryStore, 'save', 'self.data[sid] = data', "self.data[sid.split('/')[0]] = data")
+
+        def undo():
+            u1()
+            u2()
+        return undo
+
     return [
-        ('digest-compare-prefix-only', 'auth', lambda: mutate(HA, '_checkDigestResponse', "return response == auth_map['response']", "return all(a == b for a, b in zip(response, auth_map['response']))"), ['unverified-credentials-accepted']),
-        ('realm-not-checked', 'auth', lambda: mutate(HA, '_checkDigestResponse', "if auth_map['realm'] != kwargs.get('realm', None):", "if False:"), ['unverified-credentials-accepted']),
+        ('digest-compare-prefix-only', 'auth', with_dispatch_table('_checkDigestResponse', "return response == auth_map['response']", "return all(a == b for a, b in zip(response, auth_map['response']))"), ['unverified-credentials-accepted']),
+        ('realm-not-checked', 'auth', with_dispatch_table('_checkDigestResponse', "if auth_map['realm'] != kwargs.get('realm', None):", "if False:"), ['unverified-credentials-accepted']),
         ('fingerprint-not-checked', 'sessions', lambda: mutate(SS, 'verify_session', 'if user != who(request):', 'if False:'), ['session-data-disclosed', 'foreign-session-id-accepted']),
-        ('store-keyed-by-uuid-only', 'sessions', lambda: mutate(SS.MemoryStore, 'load', 'return Session(sid, self.data[sid], self)', "return Session(sid, next((v for k, v in self.data.items() if k.split('/')[0] == sid.split('/')[0]), self.data[sid]), self)"), ['session-data-disclosed']),
+        ('store-keyed-by-uuid-only', 'sessions', store_by_uuid, ['session-data-disclosed']),
         ('gateway-check-dropped', 'virtual-hosts', lambda: mutate(VH.VirtualHosts, '_on_request', 'if self.trusted_gateways is None or request.remote.ip in self.trusted_gateways:', 'if True:'), ['forwarded-host-honoured-from-untrusted-address']),
     ]
 
